@@ -39,6 +39,9 @@ CLAIMED = {
  "C07": ("Hypothesis-generated quadratic surfaces (adapter level, errordef, fixed subsets) and fitted linear / well-posed nonlinear problems vs. closed forms and the independently re-minimised reference cost",
          "Generated-input search: adapter level - covariance = 2*errordef*H^-1 on the free block with exact zero rows/columns, errors, correlation, Hessian, profile points, asymmetric errors, contour points against closed forms of a conditional quadratic form; fit level - reported covariance vs 2 H^-1 of the reference cost (generalised eigenvalues), errors/correlations consistent with the reported matrix, every returned profile point vs the reference cost re-minimised with the parameter pinned (continuation + BFGS + Nelder-Mead), asymmetric errors at profile rise 1 +- 0.1, contour points at rise n^2, XYFit.error_band vs sqrt(diag(J C J^T)) with analytic J and the reported C.",
          "Trusts the reference cost and scipy.optimize for re-minimisation (an upper bound of the profile: a reference value above kafe2's is 'inconclusive', never a violation); operational well-posedness filters (PD Hessian cond<=5e3, parameters determined to 30 %, no relative uncertainty on near-zero values, roughly parabolic & unimodal profiles) with reported discard rates; five open known findings (KF-C07-1..5: scipy generic asymmetric errors / profile / numdifftools covariance, isolated bad MINUIT profile/contour points) excluded by signature or bug model.", "DESIGN.md §4 C07"),
+ "C08": ("Hypothesis op-list histories of post-fit queries on fitted problems, state invariant against the post-fit snapshot",
+         "Generated-input search over histories (with repetition) of covariance / correlation / Hessian / asymmetric errors / profiles by sigma, cl, low+high / contours / error band / report / result dict / plot / to_file / save_state on fitted linear and nonlinear problems with fixed, limited and constrained parameters for both backends: after every query parameter values (0.02 sigma), cost (1e-2), uncertainties (2 %), did_fit, minimizer-vs-graph parameter values and 'reported cost == reference cost at the held parameters' are compared with the snapshot taken right after do_fit (no cumulative drift); queries that raise must leave the state unchanged too; repeated questions must give the same answer.",
+         "Trusts the reference cost for the consistency facet; fits within 2 sigma of a limit are discarded; scipy contours only in the thorough tier.", "DESIGN.md §4 C08"),
 }
 NOT_YET = "check not built yet in this session (work in progress; see DESIGN.md §10 build order)"
 
